@@ -581,6 +581,7 @@ fn evaluate_stub() -> Eval {
         continue_after_error: false,
         source_override: None,
         dig_file: None,
+        thread_seed: None,
     };
     evaluate(Prop::C02, &case)
 }
@@ -1177,6 +1178,11 @@ fn case_variants(case: &Case) -> Vec<Case> {
     if case.inspect.is_some() {
         let mut c = case.clone();
         c.inspect = None;
+        out.push(c);
+    }
+    if case.thread_seed.is_some() {
+        let mut c = case.clone();
+        c.thread_seed = None;
         out.push(c);
     }
     if !case.reparse.is_empty() {
